@@ -156,8 +156,20 @@ def r13_3(ctx):
     ctx.decide('R13.3', cv.qual, src(st[0]) if st else 'store', ok, st[0] if st else cv.node, 'stored under the key that was looked up')
     seed = ctx.prog.func(CP + '.__add_to_vform_asm_cache')
     k2 = [s for s in own_nodes(seed.node) if isinstance(s, ast.Assign) and src(s.targets[0]) == 'cache_key']
-    a = src(key[0].value).replace('on_demand', 'X')
-    b = src(k2[0].value).replace('False', 'X') if k2 else ''
+    def inlined(expr, fn, before):
+        """source of expr with single-assignment locals (assigned before `before`) substituted"""
+        import copy
+
+        class Inl(ast.NodeTransformer):
+            def visit_Name(self, n):
+                ds = [s for s in own_nodes(fn) if isinstance(s, ast.Assign) and len(s.targets) == 1 and src(s.targets[0]) == n.id
+                      and s.lineno < before]
+                if len(ds) == 1 and isinstance(n.ctx, ast.Load):
+                    return self.visit(copy.deepcopy(ds[0].value))
+                return n
+        return src(Inl().visit(copy.deepcopy(expr)))
+    a = inlined(key[0].value, cv.node, key[0].lineno).replace('on_demand', 'X')
+    b = inlined(k2[0].value, seed.node, k2[0].lineno).replace('False', 'X') if k2 else ''
     ctx.decide('R13.3', seed.qual, 'seeding key %s' % (src(k2[0].value) if k2 else '?'), a == b, k2[0] if k2 else seed.node,
                'same key constructor as the lookup, with on_demand=False (shipped assemblers are not on-demand)')
     hh = ctx.prog.func(VF + '.VForm.hash')
